@@ -115,14 +115,14 @@ def fifo(ctx, P, views, iters):
         q = rules.qual(ci, fn)
         ob.seen("%s:%s" % (q, how))
         okk = False
-        if how == "assign" and fn.name == "__init__" and recv == "self":
+        if how == "assign" and "__init__" in rules.effective_names(P, ci, fn) and recv == "self":
             okk = True
         elif how == "append":
             okk = True
         elif how == "pop":
             okk = len(node.args) == 1 and isinstance(node.args[0], ast.Constant) and node.args[0].value == 0 and recv == "self"
         elif how == "remove":
-            okk = fn.name == "begin_interrupted_individuals_service"   # pre-emptive schedule: the interrupted customer gives up its place in the queue
+            okk = "begin_interrupted_individuals_service" in rules.effective_names(P, ci, fn)   # pre-emptive schedule: the interrupted customer gives up its place in the queue
         if not okk:
             ctx.violation(ob, "R1.fifo", q, unparse(node), "non-fifo-op", "blocked_queue must be appended at the tail and popped at the head (pop(0)) only", loc(node))
     ctx.floor("blocked_queue operations", n, 4)
@@ -304,7 +304,7 @@ def blocked_flag(ctx, P, views, iters):
         q = rules.qual(ci, fn)
         val = unparse(node.value) if isinstance(node, ast.Assign) else "?"
         ob.seen("%s:%s" % (q, val))
-        if val == "True" and fn.name != "block_individual":
+        if val == "True" and "block_individual" not in rules.effective_names(P, ci, fn):
             ctx.violation(ob, "R14.flag", q, unparse(node), "set-outside-block", "is_blocked set True outside block_individual", loc(node))
         if val not in ("True", "False"):
             ctx.violation(ob, "R14.flag", q, unparse(node), "non-literal", "is_blocked must be assigned boolean literals", loc(node))
